@@ -35,7 +35,10 @@ Definition judge_sample (c o : sexp) : verdict :=
   match get_nat "n" c, get_nat "k" c, get_bool "replace" c, get_nats "selected" c, get_nat "rc" c, get_raw o with
   | Some n, Some k, Some repl, Some sel, Some rc, Some raw =>
     let bounds := if repl then replace_bounds k n else reservoir_bounds code_bound k n in
-    if existsb (Nat.eqb 0) bounds then
+    if Nat.eqb n 0 then
+      (* readTrees refuses an empty input (EOF) before the selection loop *)
+      if Nat.eqb rc 0 then VCorr "an empty input is accepted" else VOk false "sample:empty-input"
+    else if existsb (Nat.eqb 0) bounds then
       (* rand.Intn(0) panics *)
       if Nat.eqb rc 0 then VCorr "model: rand.Intn(0) panics; the command succeeds" else VOk false "sample:intn0"
     else
@@ -70,8 +73,12 @@ Definition judge_prune (c o : sexp) : verdict :=
       | None => VBad "model: choice vector too short"
       | Some out =>
         let sampled := flat_map (fun s => match s with Some x => [x] | None => [] end) out in
-        let expected := if rev then sampled else sdiff tips sampled in
-        if negb (Nat.eqb rc 0) then VCorr "the command failed"
+        (* --random 0 does not select the random mode: nothing is removed *)
+        let expected := if Nat.eqb k 0 then tips else if rev then sampled else sdiff tips sampled in
+        if Nat.ltb (length (sset expected)) 3 then
+          (* RemoveTips refuses to leave fewer than 3 tips (C06) *)
+          VOk false "prune:too-few-tips-left"
+        else if negb (Nat.eqb rc 0) then VCorr "the command failed"
         else if sset_eqb (sset expected) (sset remaining)
              then VOk true (if rev then "prune:random-keep" else "prune:random-remove")
              else VCorr ("model samples " ++ concat_with "," sampled ++ "; tips left by gotree prune: " ++ concat_with "," remaining)
